@@ -2,26 +2,29 @@ import MidnightZK.Proofs.C18.SimRun
 /-! # C18 — when the off-circuit interpreter rejects, the circuit is not satisfied -/
 namespace MidnightZK.C18
 
-/-- The in-circuit gadget call is not satisfied: it errors or a constraint is violated. -/
-def GFail (x : Except Err GOut) : Prop :=
-  (∃ e, x = .error e) ∨ (∃ g, x = .ok g ∧ g.sat = false)
+/-- The in-circuit gadget call is not satisfied, given that the off-circuit operation failed with
+`e`: it returns an error value, or — only when `e` is a condition on the witness (assertion,
+underflow, range, zero modulus) — it runs and a constraint is violated. -/
+def GFail (e : Err) (x : Except Err GOut) : Prop :=
+  (∃ e', x = .error e') ∨ (e.isWitnessCondition = true ∧ ∃ g, x = .ok g ∧ g.sat = false)
 
 theorem addFail {a b ca cb e} (ha : Rel a ca) (hb : Rel b cb) (h : addOff a b = .error e) :
     ∃ e', addIn ca cb = .error e' := by
   cases ha <;> cases hb <;> first | (simp [addOff] at h; done) | exact ⟨_, rfl⟩
 
 theorem subFail {a b ca cb e} (ha : Rel a ca) (hb : Rel b cb) (h : subOff a b = .error e) :
-    GFail (subIn ca cb) := by
+    GFail e (subIn ca cb) := by
   cases ha <;> cases hb <;> first | (simp [subOff] at h; done) | exact .inl ⟨_, rfl⟩ | skip
   next s x hs t y ht =>
   simp only [subOff] at h
   split at h
   · cases h
   · next hlt =>
+    cases h
     simp only [subIn]
     cases hsh : subShape s t with
     | error e' => exact .inl ⟨e', by simp [Except.bind]⟩
-    | ok sh => exact .inr ⟨_, by simp [Except.bind]; rfl, by simp [hlt]⟩
+    | ok sh => exact .inr ⟨rfl, _, by simp [Except.bind]; rfl, by simp [hlt]⟩
 
 theorem mulFail {a b ca cb e} (ha : Rel a ca) (hb : Rel b cb) (h : mulOff a b = .error e) :
     ∃ e', mulIn ca cb = .error e' := by
@@ -32,16 +35,17 @@ theorem negFail {a ca e} (ha : Rel a ca) (h : negOff a = .error e) :
   cases ha <;> first | (simp [negOff] at h; done) | exact ⟨_, rfl⟩
 
 theorem modExpFail {a b ca cb e} (n : Nat) (ha : Rel a ca) (hb : Rel b cb)
-    (h : modExpOff a n b = .error e) : GFail (modExpIn ca n cb) := by
+    (h : modExpOff a n b = .error e) : GFail e (modExpIn ca n cb) := by
   cases ha <;> cases hb <;> first | (simp [modExpOff] at h; done) | exact .inl ⟨_, rfl⟩ | skip
   next s x hs t y ht =>
   simp only [modExpOff] at h
   split at h
   · next h0 =>
+    cases h
     simp only [modExpIn]
     cases hsh : modExpShape s n t with
     | error e' => exact .inl ⟨e', by simp [Except.bind]⟩
-    | ok sh => exact .inr ⟨_, by simp [Except.bind]; rfl, by simp [h0]⟩
+    | ok sh => exact .inr ⟨rfl, _, by simp [Except.bind]; rfl, by simp [h0]⟩
   · cases h
 
 theorem affineFail {a ca e} (ha : Rel a ca) (h : affineOff a = .error e) :
@@ -49,7 +53,7 @@ theorem affineFail {a ca e} (ha : Rel a ca) (h : affineOff a = .error e) :
   cases ha <;> first | (simp [affineOff] at h; done) | exact ⟨_, rfl⟩
 
 theorem intoBytesFail {a ca e} (n : Nat) (ha : Rel a ca) (h : intoBytesOff a n = .error e) :
-    GFail (intoBytesIn true ca n) := by
+    GFail e (intoBytesIn true ca n) := by
   cases ha <;> first | (simp [intoBytesOff] at h; done) | exact .inl ⟨_, rfl⟩ | skip
   · next x =>
     simp only [intoBytesOff] at h
@@ -66,10 +70,11 @@ theorem intoBytesFail {a ca e} (n : Nat) (ha : Rel a ca) (h : intoBytesOff a n =
     simp only [intoBytesOff] at h
     split at h
     · next hc =>
+      cases h
       have hn := (wellShaped_length s hs).2.1
       have : ¬ x < 2 ^ (8 * n) := by
         intro hlt; have := (byteLen_le_iff x n).2 hlt; omega
-      exact .inr ⟨_, by simp [intoBytesIn, requireNormalized, hn]; rfl, by simp [this]⟩
+      exact .inr ⟨rfl, _, by simp [intoBytesIn, requireNormalized, hn]; rfl, by simp [this]⟩
     · cases h
   · next u v =>
     simp only [intoBytesOff] at h
@@ -227,18 +232,20 @@ theorem innerProductFail {vs cvs ws cws e} (hv : ListRel vs cvs) (hw : ListRel w
               | error e'' => exact ⟨e'', by simp [CVal.type]⟩
               | ok ks => exact ⟨e', by simp [CVal.type, mapE, asPointIn, he']⟩
 
-/-- One in-circuit dispatch that is not satisfied. -/
-def OpFail (x : Except Err (GOut × List Nat × List IrType)) : Prop :=
-  (∃ e, x = .error e) ∨ (∃ g fs ts, x = .ok (g, fs, ts) ∧ g.sat = false)
+/-- One in-circuit dispatch that is not satisfied (an error value; a violated constraint only
+for a witness condition `e`). -/
+def OpFail (e : Err) (x : Except Err (GOut × List Nat × List IrType)) : Prop :=
+  (∃ e', x = .error e') ∨
+  (e.isWitnessCondition = true ∧ ∃ g fs ts, x = .ok (g, fs, ts) ∧ g.sat = false)
 
-theorem OpFail.of_gfail {x : Except Err GOut} (h : GFail x) :
-    OpFail (x.map (fun g => (g, [], []))) := by
-  rcases h with ⟨e, he⟩ | ⟨g, hg, hs⟩
-  · exact .inl ⟨e, by simp [he, Except.map]⟩
-  · exact .inr ⟨g, [], [], by simp [hg, Except.map], hs⟩
+theorem OpFail.of_gfail {e : Err} {x : Except Err GOut} (h : GFail e x) :
+    OpFail e (x.map (fun g => (g, [], []))) := by
+  rcases h with ⟨e', he⟩ | ⟨hw, g, hg, hs⟩
+  · exact .inl ⟨e', by simp [he, Except.map]⟩
+  · exact .inr ⟨hw, g, [], [], by simp [hg, Except.map], hs⟩
 
-theorem OpFail.of_err {x : Except Err GOut} (h : ∃ e, x = .error e) :
-    OpFail (x.map (fun g => (g, [], []))) := OpFail.of_gfail (.inl h)
+theorem OpFail.of_err {e : Err} {x : Except Err GOut} (h : ∃ e', x = .error e') :
+    OpFail e (x.map (fun g => (g, [], []))) := OpFail.of_gfail (.inl h)
 
 theorem Except.map_err_iff {α β : Type} (f : α → β) (x : Except Err α) (e : Err) :
     x.map f = .error e ↔ x = .error e := by
@@ -262,7 +269,7 @@ theorem getT_checkAll {w t} : ∀ (names : List String) (vs : List IrValue),
 
 theorem opFail (H : Hashes) (w : Witness) (i : Instr) (inps : List IrValue) (cinps : List CVal)
     (e : Err) (hrel : ListRel inps cinps) (h : opOff H w i inps = .error e) :
-    OpFail (opIn H (some w) true i cinps) := by
+    OpFail e (opIn H (some w) true i cinps) := by
   obtain ⟨op, ins, onames⟩ := i
   cases op
   case load t =>
@@ -294,9 +301,10 @@ theorem opFail (H : Hashes) (w : Witness) (i : Instr) (inps : List IrValue) (cin
         simp only [] at h ⊢
         split at h
         · next hne =>
+          cases h
           rcases comparableSim .assertEq rfl ha hb with ⟨e', he', _⟩ | hok
           · exact .inl ⟨e', by simp [he', Except.map]⟩
-          · exact .inr ⟨_, [], [], by simp [hok, Except.map]; rfl, by simpa using hne⟩
+          · exact .inr ⟨rfl, _, [], [], by simp [hok, Except.map]; rfl, by simpa using hne⟩
         · cases h
   case assertNe =>
     simp only [opOff] at h
@@ -310,9 +318,10 @@ theorem opFail (H : Hashes) (w : Witness) (i : Instr) (inps : List IrValue) (cin
         simp only [] at h ⊢
         split at h
         · next heq =>
+          cases h
           rcases comparableSim .assertNe rfl ha hb with ⟨e', he', _⟩ | hok
           · exact .inl ⟨e', by simp [he', Except.map]⟩
-          · exact .inr ⟨_, [], [], by simp [hok, Except.map]; rfl, by simpa using heq⟩
+          · exact .inr ⟨rfl, _, [], [], by simp [hok, Except.map]; rfl, by simpa using heq⟩
         · cases h
   case isEq =>
     simp only [opOff] at h
@@ -496,7 +505,7 @@ theorem stepFail (H : Hashes) (w : Witness) (so : OffState) (si : InState) (i : 
     (hreg : ∀ inps, mapE (resolveOff so.mem) i.ins = .ok inps → StepRegular i inps)
     (h : stepOff H w so i = .error e) :
     (∃ e', stepIn H (some w) si i = .error e') ∨
-    (∃ si', stepIn H (some w) si i = .ok si' ∧ si'.sat = false) := by
+    (e.isWitnessCondition = true ∧ ∃ si', stepIn H (some w) si i = .ok si' ∧ si'.sat = false) := by
   unfold stepOff at h
   unfold stepIn
   split at h
@@ -508,12 +517,13 @@ theorem stepFail (H : Hashes) (w : Witness) (so : OffState) (si : InState) (i : 
     simp only [hcvs, all_known, map_fst_known, Option.isSome_some, Bool.true_or]
     split at h
     · next e2 he2 =>
-      rcases opFail H w i inps cvs e2 hrel he2 with ⟨e', he'⟩ | ⟨g, fs, ts, hg, hs⟩
+      cases h
+      rcases opFail H w i inps cvs e hrel he2 with ⟨e', he'⟩ | ⟨hwc, g, fs, ts, hg, hs⟩
       · exact .inl ⟨e', by simp [he']⟩
       · simp only [hg]
         cases hins : insertMany si.mem i.outs (g.outs.map (fun v => (v, true))) with
         | error e' => exact .inl ⟨e', rfl⟩
-        | ok m2 => exact .inr ⟨_, rfl, by simp [hs]⟩
+        | ok m2 => exact .inr ⟨hwc, _, rfl, by simp [hs]⟩
     · next outs pub hop =>
       split at h
       · next e3 he3 =>
@@ -543,25 +553,26 @@ theorem runIn_sat_false (H : Hashes) (w : Option Witness) : ∀ (p : Program) (s
           · cases hstep
           · cases hstep; simp [hs]
 
-/-- If the off-circuit run fails, the in-circuit run on the same witness errors or ends with a
-violated constraint. -/
+/-- If the off-circuit run fails with `e`, the in-circuit run on the same witness returns an error
+value or — only when `e` is a condition on the witness — ends with a violated constraint. -/
 theorem runFail (H : Hashes) (w : Witness) (hw : WitnessCanonical w) :
     ∀ (p : Program) (so : OffState) (si : InState) (e : Err), Inv so si →
       RunRegular H w so p → runOff H w so p = .error e →
       (∃ e', runIn H (some w) si p = .error e') ∨
-      (∃ si', runIn H (some w) si p = .ok si' ∧ si'.sat = false)
+      (e.isWitnessCondition = true ∧ ∃ si', runIn H (some w) si p = .ok si' ∧ si'.sat = false)
   | [], so, si, e, _, _, h => by simp [runOff] at h
   | i :: rest, so, si, e, hinv, hreg, h => by
     unfold runOff at h
     unfold runIn
     split at h
     · next e1 he1 =>
-      rcases stepFail H w so si i e1 hw hinv hreg.1 he1 with ⟨e', he'⟩ | ⟨si1, hsi1, hs⟩
+      cases h
+      rcases stepFail H w so si i e hw hinv hreg.1 he1 with ⟨e', he'⟩ | ⟨hwc, si1, hsi1, hs⟩
       · exact .inl ⟨e', by simp [he']⟩
       · simp only [hsi1]
         cases hr : runIn H (some w) si1 rest with
         | error e' => exact .inl ⟨e', rfl⟩
-        | ok si' => exact .inr ⟨si', rfl, runIn_sat_false H _ rest si1 si' hs hr⟩
+        | ok si' => exact .inr ⟨hwc, si', rfl, runIn_sat_false H _ rest si1 si' hs hr⟩
     · next so1 hstep =>
       rcases stepSim H w so si i so1 hw hinv hreg.1 hstep with ⟨e', he', _⟩ | ⟨si1, hsi1, hinv1⟩
       · exact .inl ⟨e', by simp [he']⟩
